@@ -67,6 +67,8 @@ def run(ctx, chk, tier="quick"):
     from ..memo import memo_keys
     memo_keys(ctx, chk, "C15.O1", ("transmissivity", "spline"), "transmissivity")
     from ..perm import sorted_values_regathered
+    from ..perm import fixed_order_quadrature
+    fixed_order_quadrature(ctx, chk, "C15.O1", ('transmissivity',), "transmissivity", 'a 5-point Gauss rule over a knot interval on which the conductivity spans orders of magnitude is off by a fraction of a per cent, and whether the fallback is taken changes from one level to the next: the value is not minimum + integral, and is not monotone in the level')
     sorted_values_regathered(ctx, chk, "C15.O3", ('transmissivity', 'spline'), "transmissivity")
     mod = ctx.repo.module("transmissivity")
     cs = ctx.func("transmissivity.SplineTransmissivity.call_scalar")
